@@ -18,7 +18,7 @@ import struct
 
 from mc import pattern
 from mc.models import DATA, HOLE, GuestDisk, RawDisk
-from mc.vfile import Image
+from mc.vfile import Image, slot_range
 
 FOOTER = ">8sIIQI4sI4sQQIII16sB"
 DYN = ">8sQQIIII16sII512s"
@@ -93,7 +93,7 @@ def build_dynamic(states, slots, spb, size=None, max_entries=None, layout="std",
     img.put(bat_off, struct.pack(f">{max_entries}I", *ents).ljust(bat_len, b"\xff"))
     inv = {p: i for i, (st, p) in enumerate(zip(states, slots)) if st == DATA}
     end = 0
-    for p in range(nslots + 1):  # one slack slot after the last used one
+    for p in slot_range(0, nslots + 1, used):  # one slack slot after the last used one
         off = (first + p * stride) * 512
         if p in inv:
             img.put(off, b"\xff" * (bms * 512), meta=False)
